@@ -419,7 +419,10 @@ func (c *ServerChannel) FinishSession(ctx context.Context) error {
 		State: SessionStateFinished,
 	}
 
+	// data senders write under sendMu: the farewell must not be written into the middle of their envelope
+	c.sendMu.Lock()
 	err := c.sendSession(ctx, &ses)
+	c.sendMu.Unlock()
 
 	c.setState(SessionStateFinished)
 
@@ -449,7 +452,10 @@ func (c *ServerChannel) FailSession(ctx context.Context, reason *Reason) error {
 		State:  SessionStateFailed,
 		Reason: reason,
 	}
+	// data senders write under sendMu: the farewell must not be written into the middle of their envelope
+	c.sendMu.Lock()
 	err := c.sendSession(ctx, &ses)
+	c.sendMu.Unlock()
 
 	c.setState(SessionStateFailed)
 
